@@ -171,3 +171,27 @@ package hotspot
 //@     invariant[count] n0 <= gHotN && gHotN <= n0 + #i
 //@     invariant[no-block-yet] forall j Int :: n0 <= j && j < gHotN ==> !sel(gHotBlocked, j) && sel(gHotArg, j) != nil && sel(gHotBatch, j) == ctx.Input.BatchCount
 //@     invariant[skipped-without-argument] (forall k Int :: 0 <= k && k < #i ==> tcs[k].ExtractArgs(ctx) == nil) ==> gHotN == n0
+
+// ---- C13: whole-set load. The grouping loop must cope with any element, including nil; the rebuild itself
+// (onRuleUpdate) is under a separate contract.
+//@ func onRuleUpdate(rawResRulesMap) err
+//@   assumed
+//@   modifies heap
+//@ func LoadRules(rules) (changed, err)
+//@   props C13
+//@   panics never
+//@   sets gHotLoadN = old(gHotLoadN) + 1
+//@   sets gHotLoadArg = rules
+//@   ensures[recorded] gHotLoadN == old(gHotLoadN) + 1 && gHotLoadArg == rules
+//@   modifies heap, gHotLoadN, gHotLoadArg
+//@   witness n = len(rules)
+//@   replay loadrules_nil
+
+// ---- loader entry points as seen by the datasource layer (C18): calls are recorded
+//@ ghost var gHotLoadN Int
+//@ ghost var gHotLoadArg Slice
+//@ ghost var gHotClearN Int
+//@ func ClearRules() err
+//@   assumed
+//@   ensures gHotClearN == old(gHotClearN) + 1
+//@   modifies gHotClearN
